@@ -1,9 +1,9 @@
 package main
 
 import (
-	v3thrift_proxy "github.com/envoyproxy/go-control-plane/envoy/extensions/filters/network/thrift_proxy/v3"
 	"encoding/json"
 	"fmt"
+	v3thrift_proxy "github.com/envoyproxy/go-control-plane/envoy/extensions/filters/network/thrift_proxy/v3"
 	"math"
 	"sort"
 	"strconv"
